@@ -154,7 +154,7 @@ def _round(case: Dict[str, Any], path: str) -> CaseResult:
 def cases(draw: Any, tier: str) -> Dict[str, Any]:
     npar = draw(st.integers(0, 1))
     P = draw(gen.flat_prog(min_sites=3, max_sites=8, max_deps=3, resources=gen.RES, dep_kinds=("pos", "kw"),
-                           n_params=npar, prio_range=(-1, 2), none_rate=0.2))
+                           n_params=npar, prio_range=(-1, 2), none_rate=0.2, short_name_rate=0.3))
     sites = [s["site"] for s in P["body"]]
     case: Dict[str, Any] = {"prog": P, "mc": draw(st.integers(1, 3)), "async": draw(st.booleans()), "args": [draw(st.sampled_from([0, 1, "a"])) for _ in range(npar)]}
     case["cache_mode"] = draw(st.sampled_from(["whole", "target", "target", "deps_of", "deps_of"]))
